@@ -106,8 +106,13 @@ CHECKS = {
     'C09': dict(
         text='Proof over the generated liquidation_price / bankruptcy_price / margin-rate formulas: bankruptcy < liquidation < '
              'entry (mirrored for shorts) for every real leverage in [1,250), none in cross/spot, loss at bankruptcy = initial '
-             'margin. Trigger/closing-order clauses are decided on engine sessions (see evidence.unproved).',
-        technique='Lean 4 theorems over generated Position formulas; translator cross-check on real Position objects; oracle over leverages 1..125',
+             'margin; and over the engine model of _check_for_liquidations, for every strategy: the check changes the state ONLY '
+             'in an isolated-margin futures session with an open position whose liquidation price lies in the candle '
+             '(C09.liquidation_only_when_touched), and then it submits exactly one MARKET, reduce-only order on the closing side '
+             'for the whole position at the bankruptcy price, executes it at once and counts one liquidation '
+             '(C09.liquidation_when_touched). Which candle the check is given (the whole minute / chunk, after the resting orders) '
+             'is tied by whole-session correspondence on isolated sessions at leverage up to 100 and by the trace oracle.',
+        technique='Lean 4 theorems over generated Position formulas and the engine model; translator cross-check on real Position objects; whole-session correspondence; liquidation oracle on real traces',
         ref='4 (C09)'),
     'C10': dict(
         text='Proof over the generated decision bodies of _submit_buy/sell_orders and the generated Broker methods: order type is '
@@ -129,13 +134,20 @@ CHECKS = {
         note='The engine run itself is a black box in this model (its determinism given equal effective parameters and '
              'candles is exercised by the fresh-process oracle, not proved); store.reset() completeness is covered by the oracle only.'),
     'C12': dict(
-        text='Engine model of BOTH simulators tied to the real engine by whole-session trace correspondence per simulator; '
-             'oracle: the same real session under fast_mode False/True, filtered by the hypothesis on the normal run (at most '
-             'one resting order filled per trading-candle span, no liquidation): equal executed orders (side, type, qty, price, '
-             'minute), closed trades and final balances.',
-        technique='Lean 4 engine model (step and chunked simulators) + per-simulator correspondence; paired-run oracle under the stated hypothesis',
+        text='PARTIAL proof over the engine model of BOTH simulators, for every strategy: over every span in which no resting '
+             'order of the symbol is reachable (no active order price inside the aggregate candle of the chunk) and no '
+             'liquidation is possible, the normal simulator - minute by minute over the jump-fixed rows - and the fast simulator '
+             '- the chunk at once - end in the same trading state: accounts incl. current price, orders, strategy states, '
+             'pending market orders, trace, equity samples (C12.quiet_span_agree_partial, with C12.quiet_minute_partial / '
+             'C12.quiet_chunk_partial): fills are the only source of divergence. The full statement (spans with one fill) is '
+             'decided by the paired-run oracle: the same real session under fast_mode False/True, filtered by the property\'s '
+             'hypothesis on the normal run (at most one resting order filled per trading-candle span, no liquidation), must '
+             'give equal executed orders (side, type, qty, price, minute), closed trades and final balances; strategies gate '
+             'their entries on data-route candles. Both model simulators are tied to the real ones by per-simulator '
+             'whole-session correspondence.',
+        technique='Lean 4 theorems over the step and chunked simulators (quiet spans) + per-simulator correspondence; paired-run oracle under the stated hypothesis',
         ref='4 (C12)',
-        note='The simulation-relation theorem between the two model simulators is not yet proved (evidence.unproved).'),
+        note='Not proved: equality of the candle stores of the two simulators, and the spans that contain a fill (evidence.unproved).'),
     'C13': dict(
         text='Proof that 50 hand models of indicator kernels (sma, ema, wma, smma, wilders, dema, tema, trima, rsi, macd x3, stoch/stochf, '
              'cci, mfi, stddev/var, bollinger x3, keltner x3, donchian x3, willr, roc, mom, obv, tr/atr, dm, di, adx, 4 price transforms; '
